@@ -670,6 +670,17 @@ func (env *SpecEnv) evalCall(n *SNode) Val {
 			return vBool("false")
 		}
 		return vBool(sAnd(sEq(a.arr(), b.arr()), sEq(a.off(), b.off()), sEq(a.length(), b.length()), sEq(a.capa(), b.capa())))
+	case "runeOff":
+		// runeOff(s, i, k): byte offset (relative to s) reached from byte offset i after k runes (clamped at the end)
+		sv := env.eval(n.Args[0])
+		i := env.eval(n.Args[1]).S
+		k := env.eval(n.Args[2]).S
+		st.fc.V.utf8Prelude()
+		st.fc.V.addPrelude("u8off", "(define-fun-rec g_u8off ((c (Array Int Int)) (p Int) (e Int) (k Int)) Int (ite (or (<= k 0) (>= p e)) p (g_u8off c (+ p (g_utf8_width c p e)) e (- k 1))))")
+		if sv.K != KString {
+			env.fail("runeOff needs a string")
+		}
+		return vInt(sSub(sApp("g_u8off", sv.content(), sAdd(sv.soff(), i), sAdd(sv.soff(), sv.length()), k), sv.soff()), intType)
 	case "runeCountFrom", "runeAt", "widthAt":
 		// exact UTF-8 decoding of a string / byte sequence value at byte offset i
 		sv := env.eval(n.Args[0])
@@ -693,6 +704,23 @@ func (env *SpecEnv) evalCall(n *SNode) Val {
 		}
 		st.fc.V.addPrelude("u8count", "(define-fun-rec g_u8count ((c (Array Int Int)) (p Int) (e Int)) Int (ite (>= p e) 0 (+ 1 (g_u8count c (+ p (g_utf8_width c p e)) e))))")
 		return vInt(sApp("g_u8count", c, p, e), nil)
+	case "content", "sbeg", "send":
+		sv := env.eval(n.Args[0])
+		if sv.K != KString {
+			env.fail("%s needs a string", n.Text)
+		}
+		switch n.Text {
+		case "content":
+			return vRaw(sv.content(), "(Array Int Int)")
+		case "sbeg":
+			return vInt(sv.soff(), intType)
+		}
+		return vInt(sAdd(sv.soff(), sv.length()), intType)
+	case "u8off":
+		c := env.eval(n.Args[0])
+		st.fc.V.utf8Prelude()
+		st.fc.V.addPrelude("u8off", "(define-fun-rec g_u8off ((c (Array Int Int)) (p Int) (e Int) (k Int)) Int (ite (or (<= k 0) (>= p e)) p (g_u8off c (+ p (g_utf8_width c p e)) e (- k 1))))")
+		return vInt(sApp("g_u8off", c.S, env.eval(n.Args[1]).S, env.eval(n.Args[2]).S, env.eval(n.Args[3]).S), intType)
 	case "u8count", "u8width", "u8rune":
 		c := env.eval(n.Args[0])
 		p := env.eval(n.Args[1]).S
